@@ -178,7 +178,7 @@ def ws_h2_pressure(seed):
     rng = random.Random(seed)
     m = rng.choice([100, 20000, 50000])
     nmsgs = rng.choice([5, 30])
-    release = rng.choice(["credit", "reset", "eof"])
+    release = rng.choice(["credit", "reset", "eof", "wsclose-eof", "wsclose-eof"])
     steps = [("recv",), ("send", {"type": "websocket.accept"})]
     for i in range(nmsgs):
         steps.append(("send", {"type": "websocket.send", "bytes": HS.genb(m, i % 256)}))
@@ -216,12 +216,29 @@ def ws_h2_pressure(seed):
     elif release == "reset":
         ws.h2c.reset_stream(1)
         ws.rig.feed(ws.h2c.data_to_send())
+    elif release == "wsclose-eof":
+        # the client's own close frame detaches the stream from the protocol while its buffer still holds what the window
+        # did not let through; then the client goes away: the connection's end must release whoever still waits on that buffer
+        from wsproto.connection import Connection, ConnectionType
+        from wsproto.events import CloseConnection
+
+        try:
+            ws.h2c.send_data(1, Connection(ConnectionType.CLIENT).send(CloseConnection(code=1000)))
+            ws.rig.feed(ws.h2c.data_to_send())
+            ws.rig.run()
+        except Exception:  # noqa: BLE001
+            pass
+        ws.rig.eof()
     else:
         ws.rig.eof()
     ws.rig.run()
     alive = [n for n in ws.driver.alive() if n.startswith("app")]
     if alive:
-        failures.append({"signature": "ws-h2-sender-never-released", "seed": seed, "release": release, "alive": alive})
+        # F49: the reader itself is parked in StreamBuffer.push with the echo of the client's close frame (the buffer is at
+        # its high-water mark), so the end of the connection is never read
+        reader_parked = any(t.name == "reader" and not t.done and t.waiting is not None and t.waiting.label == "event" for t in ws.driver.tasks)
+        sig = "F49:reader-parked-in-push" if release == "wsclose-eof" and reader_parked else "ws-h2-sender-never-released"
+        failures.append({"signature": sig, "seed": seed, "release": release, "alive": alive})
     if release == "credit":
         got = [e for e in ws.events if e[0] == "bytes"]
         total = sum(len(e[1]) for e in got)
@@ -294,6 +311,12 @@ def run(ctx):
 
 
 def known_still_fails(k):
+    if k.get("signature", "").startswith("F49:"):
+        for seed in (6, 7, 10, 11):
+            d, f = ws_h2_pressure(seed)
+            if d["release"] == "wsclose-eof" and any(x["signature"].startswith("F49:") for x in f):
+                return f"ws-h2 pressure session {seed}: the application is still waiting after the client's close frame and EOF"
+        return None
     return None
 
 
